@@ -773,7 +773,10 @@ pub fn judge(inv: &mut Inv, prev_clean: Option<&BTreeSet<usize>>, prev_failed: &
                             let ran_ok = sh.finishes.iter().any(|f| f.uid == u && f.outcome == Outcome::Success && f.epoch == last_epoch);
                             if !ran_ok && !started_last.contains(&u) && world.dirty(pj, s, &sh.attr) && world.missing_sources(pj, s).is_empty() {
                                 let shown = budget.map(|k| k.to_string()).unwrap_or("unlimited".into());
-                                push(&mut v, "C05", "independent-step-left-dirty", format!("{} failure(s) with budget {}: step {} does not depend on a failed step but was left out of date", nfail, shown, u));
+                                let msg = format!("{} failure(s) with budget {}: step {} does not depend on a failed step but was left out of date", nfail, shown, u);
+                                push(&mut v, "C05", "independent-step-left-dirty", msg.clone());
+                                // C06: with failures n2 must stop only when nothing further can run
+                                push(&mut v, "C06", "stopped-while-runnable", msg);
                             }
                         }
                         if failures.iter().any(|f| sh.waits.iter().any(|w| w.time > f.time)) || wanted_final.len() > failed.len() {
